@@ -20,9 +20,11 @@ From Coq Require Import List NArith Bool.
 Import ListNotations.
 Open Scope N_scope.
 
-(* false = the tree as pinned (POSIX path: fixed 15..128 BYTES, account policy ignored);
-   true  = the tree with /verif/fixes/C31.patch (POSIX path: graphemes against max(policy minimum, 15)) *)
-Definition tree_fixed : bool := false.
+(* true  = the current tree: /repo commit cec32bc ("fix: the POSIX password path must enforce the account's
+           password length policy"): POSIX path counts graphemes against max(policy minimum, 15) .. policy maximum;
+   false = the tree before that commit (POSIX path: fixed 15..128 BYTES, account policy ignored), kept only for
+           the C31_prefix_* documentation theorems *)
+Definition tree_fixed : bool := true.
 
 (* ------------------------------------------------------------------ strings *)
 Definition str := list N.
@@ -261,7 +263,7 @@ Definition item_pcheck (cf : cfg) (it : item) : bool :=
   | ISess ops impl commit stp stu =>
       accepted_ok cf ops impl && stored_ok cf ops true stp && stored_ok cf ops false stu
   end.
-(* KnownClass (only on the unfixed tree): a POSIX password change that the fixed 15..128 byte window lets
+(* KnownClass of the PRE-FIX tree (empty on the current tree): a POSIX password change that the fixed 15..128 byte window lets
    through although the password has fewer grapheme clusters than the account's effective minimum *)
 Definition item_known_gen (fixed : bool) (cf : cfg) (it : item) : bool :=
   negb fixed &&
@@ -295,4 +297,5 @@ Definition known_gen (fixed : bool) (c : case) : bool :=
   end.
 
 Definition agree : case -> bool := agree_gen tree_fixed.
-Definition known : case -> bool := known_gen tree_fixed.
+(* no known-finding class on the current tree (known_gen false is the class of the pre-fix tree) *)
+Definition known (_ : case) : bool := false.
